@@ -225,7 +225,9 @@ static void probe(int rec, unsigned char * base, size_t pre, size_t n, size_t af
 #define MAXFILL 8
 /* s[0..L): the text; alpha/nsym: symbols used as neighbours; salt varies the neighbours.
  * cuts: 0 = every cut 0..L, else only `cuts` pseudo-random cuts plus L */
+#if !VH_ASAN
 static unsigned char * arena; static size_t arena_cap;
+#endif
 static void place_all(int rec, const unsigned char * s, size_t L, const unsigned char * alpha, int nsym, uint64_t salt, int chr, int ncuts, vh_rng_t * rng) {
     size_t pre = (salt & 1) ? 0 : 2 + (size_t) ((salt >> 1) & 1), k, i;
     unsigned char * b;
